@@ -5,7 +5,11 @@
    _dbus_type_writer_write_basic), the value marshaller _dbus_marshal_write_basic of
    dbus-marshal-basic.c, and the glue of dbus-message.c (dbus_message_iter_append_basic,
    dbus_message_iter_open_container, dbus_message_iter_close_container,
-   _dbus_message_iter_open_signature, _dbus_message_iter_close_signature).
+   _dbus_message_iter_open_signature, _dbus_message_iter_close_signature), plus
+   dbus_message_iter_append_fixed_array (_dbus_type_writer_write_fixed_multi,
+   _dbus_marshal_write_fixed_multi, marshal_fixed_multi, _dbus_swap_array),
+   dbus_message_iter_abandon_container(_if_open) (_dbus_message_iter_abandon_signature) and the
+   call sequence of dbus_message_append_args_valist ([ops_of_args]).
 
    Every definition names the C function it follows.  [None] is a failed
    assertion / _dbus_return_val_if_fail / read outside a string (API misuse);
@@ -200,6 +204,62 @@ Definition marshal_write_basic (le : bool) (body : bytes) (pos : N) (v : val) : 
   | _ => None
   end.
 
+(* ---- blocks of fixed-size values (dbus_message_iter_append_fixed_array) ------------------- *)
+(* DBUS_COMPILER_BYTE_ORDER of the build the correspondence run uses (x86-64).  The caller's array is
+   in this order; everything below takes the host order as a parameter and the result does not depend
+   on it (Proofs/WriterProofs.v: marshal_fixed_multi_end). *)
+Definition compiler_le : bool := true.
+
+(* _dbus_swap_array: n elements of [size] bytes each, starting at the head of [d], are reversed in place *)
+Fixpoint swap_elems (n : nat) (size : nat) (d : bytes) : bytes :=
+  match n with
+  | O => d
+  | S n' => rev (firstn size d) ++ swap_elems n' size (skipn size d)
+  end.
+
+(* marshal_fixed_multi: alignment padding once (_dbus_string_insert_alignment, even for n = 0), the caller's
+   n * size bytes copied as they are (host order), then swap_array over the copied region when the message is
+   not in host order *)
+Definition marshal_fixed_multi (host le : bool) (body : bytes) (pos : N) (size : N) (ns : list N) : option (bytes * N) :=
+  let array_start := align_value pos size in
+  match insert_at pos (zeros (array_start - pos)) body with
+  | None => None
+  | Some b1 =>
+      let native := flat_map (fun n => bytes_of host (N.to_nat size) n) ns in
+      match insert_at array_start native b1 with
+      | None => None
+      | Some b2 =>
+          let b3 := if Bool.eqb le host then b2
+                    else firstn (N.to_nat array_start) b2 ++
+                         swap_elems (length ns) (N.to_nat size) (skipn (N.to_nat array_start) b2) in
+          Some (b3, array_start + nlen ns * size)
+      end
+  end.
+
+(* marshal_1_octets_array: the bytes, no alignment, no swapping *)
+Definition marshal_1_octets_array (body : bytes) (pos : N) (ns : list N) : option (bytes * N) :=
+  match insert_at pos (map (fun n => n mod 256) ns) body with
+  | Some b => Some (b, pos + nlen ns)
+  | None => None
+  end.
+
+(* _dbus_marshal_write_fixed_multi: the switch on the element type *)
+Definition marshal_write_fixed_multi (host le : bool) (body : bytes) (pos : N) (c : N) (ns : list N) : option (bytes * N) :=
+  if c =? DBUS_TYPE_BYTE then marshal_1_octets_array body pos ns
+  else if (c =? DBUS_TYPE_INT16) || (c =? DBUS_TYPE_UINT16) then marshal_fixed_multi host le body pos 2 ns
+  else if (c =? DBUS_TYPE_BOOLEAN) || (c =? DBUS_TYPE_INT32) || (c =? DBUS_TYPE_UINT32) || (c =? DBUS_TYPE_UNIX_FD)
+       then marshal_fixed_multi host le body pos 4 ns
+  else if (c =? DBUS_TYPE_INT64) || (c =? DBUS_TYPE_UINT64) || (c =? DBUS_TYPE_DOUBLE) then marshal_fixed_multi host le body pos 8 ns
+  else None.
+
+(* the caller's C array: every element is a number of the array's element type *)
+Fixpoint nums_of (c : N) (elems : list val) : option (list N) :=
+  match elems with
+  | [] => Some []
+  | VNum c' n :: r => if c' =? c then match nums_of c r with Some ns => Some (n :: ns) | None => None end else None
+  | _ :: _ => None
+  end.
+
 Definition typecode_of_basic (v : val) : option N :=
   match v with VNum c _ => Some c | VStr c _ => Some c | _ => None end.
 
@@ -239,6 +299,19 @@ Definition type_writer_write_basic (le : bool) (m : strs) (w : writer) (v : val)
       | None => None
       end
   end.
+
+(* _dbus_type_writer_write_fixed_multi: the assertions (directly inside an array, fixed element type,
+   expectation mode), the element type code verified FIRST, then the block *)
+Definition type_writer_write_fixed_multi (host le : bool) (m : strs) (w : writer) (c : N) (ns : list N) : option (strs * writer) :=
+  if negb ((w_ct w =? DBUS_TYPE_ARRAY) && type_fixed c && w_exp w) then None
+  else match write_or_verify_typecode m w c with
+       | None => None
+       | Some (m1, w1) =>
+           match marshal_write_fixed_multi host le (s_bodystr m1) (w_vpos w1) c ns with
+           | Some (b, p) => Some (mkS b (s_sigstr m1), set_vpos w1 p)
+           | None => None
+           end
+       end.
 
 (* writer_recurse_init_and_check: sub = *real (copied by the caller), re-initialised by
    _dbus_type_writer_init from the parent; the DBUS_DISABLE_CHECKS block compares the expected type *)
@@ -462,10 +535,39 @@ Definition iter_close_signature (sigfield : bytes) (m : strs) (w : writer) : opt
        | _, _ => None
        end.
 
+(* _dbus_message_iter_abandon_signature: drop one reference; the last one frees the string WITHOUT storing it
+   and removes the types from the writer *)
+Definition iter_abandon_signature (m : strs) (w : writer) : option (strs * writer) :=
+  if negb (has_ts w) || (w_refs w =? 0) then None
+  else if 0 <? w_refs w - 1 then Some (m, set_refs w (w_refs w - 1))
+  else match w_ts w, s_sigstr m with
+       | TsSig, Some _ =>
+           Some (mkS (s_bodystr m) None, mkW (w_ct w) TsNone 0 (w_exp w) (w_vpos w) (w_lenpos w) (w_start w) (w_etpos w) 0)
+       | _, _ => None
+       end.
+
+(* dbus_message_iter_append_fixed_array: the _dbus_return_val_if_fail checks that concern the writer (fixed element
+   type other than UNIX_FD, the iterator is an array's, at most DBUS_MAXIMUM_ARRAY_LENGTH / alignment elements,
+   booleans are 0 or 1 -- the block marshaller does not normalise them), then _dbus_type_writer_write_fixed_multi.
+   No open/close_signature around it. *)
+Definition iter_append_fixed_array (host le : bool) (m : strs) (w : writer) (c : N) (elems : list val) : option (strs * writer) :=
+  if negb (type_fixed c && negb (c =? DBUS_TYPE_UNIX_FD)) then None
+  else if negb (w_ct w =? DBUS_TYPE_ARRAY) then None
+  else match nums_of c elems, type_get_alignment c with
+       | Some ns, Some alignment =>
+           if DBUS_MAXIMUM_ARRAY_LENGTH / alignment <? nlen ns then None
+           else if (c =? DBUS_TYPE_BOOLEAN) && negb (forallb (fun n => n <=? 1) ns) then None
+           else type_writer_write_fixed_multi host le m w c ns
+       | _, _ => None
+       end.
+
 Inductive wop :=
 | WBasic (v : val)                         (* dbus_message_iter_append_basic *)
 | WOpen (k : ckind) (contained_sig : bytes)  (* dbus_message_iter_open_container *)
-| WClose.                                  (* dbus_message_iter_close_container *)
+| WClose                                   (* dbus_message_iter_close_container *)
+| WFixedMulti (c : N) (elems : list val)   (* dbus_message_iter_append_fixed_array: all elements in ONE call *)
+| WAbandon                                 (* dbus_message_iter_abandon_container *)
+| WAbandonIfOpen.                          (* dbus_message_iter_abandon_container_if_open on the innermost level *)
 
 Definition writer_step (st : wstate) (op : wop) : option wstate :=
   let le := ws_le st in
@@ -504,7 +606,27 @@ Definition writer_step (st : wstate) (op : wop) : option wstate :=
           | Some (sf, m2, r2) => Some (mkWS le m2 sf (r2 :: rest))
           end
       end
-  | _, _ => None           (* closing with nothing open / no iterator *)
+  | WFixedMulti c elems, real :: rest =>
+      (* dbus_message_iter_append_fixed_array *)
+      match iter_append_fixed_array compiler_le le (ws_strs st) real c elems with
+      | Some (m1, r1) => Some (mkWS le m1 (ws_sigfield st) (r1 :: rest))
+      | None => None
+      end
+  | WAbandon, sub :: real :: rest =>
+      (* dbus_message_iter_abandon_container: the signature reference is dropped and the sub-iterator zeroed.
+         NOTHING is unrecursed: the bytes written for the container stay in the body, an array's length word stays
+         0, the parent's value_pos is not brought up to date ("the message is hosed") *)
+      match iter_abandon_signature (ws_strs st) real with
+      | Some (m1, r1) => Some (mkWS le m1 (ws_sigfield st) (r1 :: rest))
+      | None => None
+      end
+  | WAbandonIfOpen, sub :: real :: rest =>
+      match iter_abandon_signature (ws_strs st) real with
+      | Some (m1, r1) => Some (mkWS le m1 (ws_sigfield st) (r1 :: rest))
+      | None => None
+      end
+  | WAbandonIfOpen, [_] => Some st      (* the sub-iterator is zeroed (never opened / already closed): returns at once *)
+  | _, _ => None           (* closing / abandoning with nothing open, no iterator *)
   end.
 
 Fixpoint run_ops (ops : list wop) (st : wstate) : option wstate :=
@@ -545,3 +667,43 @@ Fixpoint ops_of_val (v : val) : list wop :=
   end.
 
 Definition ops_of_vals (vs : list val) : list wop := flat_map ops_of_val vs.
+
+(* ---- dbus_message_append_args_valist ------------------------------------------------------- *)
+(* one (type, value...) group of the varargs list: a basic type with its value, or DBUS_TYPE_ARRAY with the
+   element type, the C array and its length *)
+Inductive arg :=
+| ABasic (v : val)
+| AArray (c : N) (elems : list val).
+
+Definition is_stringlike (c : N) : bool := (c =? DBUS_TYPE_STRING) || (c =? DBUS_TYPE_OBJECT_PATH) || (c =? DBUS_TYPE_SIGNATURE).
+
+(* the calls the while loop makes on ONE append iterator; it stops at the first group it does not support
+   (after abandoning the array it has already opened) *)
+Fixpoint ops_of_args (args : list arg) : list wop :=
+  match args with
+  | [] => []
+  | ABasic v :: r =>
+      match typecode_of_basic v with
+      | Some _ => WBasic v :: ops_of_args r
+      | None => []                                   (* "type isn't supported yet": goto failed *)
+      end
+  | AArray c elems :: r =>
+      if type_fixed c && negb (c =? DBUS_TYPE_UNIX_FD)
+      then WOpen KArray [c] :: WFixedMulti c elems :: WClose :: ops_of_args r
+      else if is_stringlike c
+      then (WOpen KArray [c] :: map WBasic elems ++ [WClose]) ++ ops_of_args r
+      else [WOpen KArray [c]; WAbandon]              (* "arrays of %s can't be appended": abandon, goto failed *)
+  end.
+
+Definition val_of_arg (a : arg) : val :=
+  match a with ABasic v => v | AArray c elems => VArr (TBasic c) elems end.
+
+(* several dbus_message_append_args calls in a row: each one makes its own dbus_message_iter_init_append *)
+Fixpoint run_calls (le : bool) (body sg : bytes) (calls : list (list wop)) : option (bytes * bytes) :=
+  match calls with
+  | [] => Some (body, sg)
+  | ops :: r => match run_writer_from le body sg ops with
+                | Some (b, s) => run_calls le b s r
+                | None => None
+                end
+  end.
